@@ -19,6 +19,7 @@ CFG = dict(
                  "3": "a unary call's result is not what the first delivered envelope carrying its id says",
                  "4": "a stream's messages are not, in order, the bodies of the delivered envelopes carrying its id",
                  "5": "dishonest success: a call reported a success whose body no delivered envelope with its id carried",
+                 "11": "wedged: the scenario could not be run to its end - a goroutine of the client waits for a lock for ever (a self-deadlock reached by a peer-chosen envelope sequence); every later operation on that call hangs, also after the connection is closed",
                  "6": "hang: an operation is still pending at a quiescent point after the connection was closed",
                  "7": "a call started after the connection was closed did not fail at once",
                  "8": "panic in a client API call",
